@@ -6,6 +6,8 @@ class SameID:
     if previous.record_type != self.record_type:
       # only group lines of the same kind are merged
       return super()._process_not_unique(previous)
+    # contradictory tags are reported before anything is merged
+    self._check_tags_of_previous_group_definition(previous)
     self._gfa = previous.gfa
     self._initialize_references()
     cur_items = self.get("items")
@@ -14,6 +16,18 @@ class SameID:
                             set_reference = True)
     self._import_tags_of_previous_group_definition(previous)
     return None
+
+  def _check_tags_of_previous_group_definition(self, previous):
+    for tag in previous.tagnames:
+      prv = previous.get(tag)
+      cur = self.get(tag)
+      if cur and cur != prv:
+        raise gfapy.NotUniqueError(
+          "Same tag defined differently in "+
+          "multiple group lines with same ID\n"+
+          "Previous tag definition: {}\n".format(prv)+
+          "New tag definition: {}\n".format(cur)+
+          "Group ID: {}".format(self.name))
 
   def _import_tags_of_previous_group_definition(self, previous):
     for tag in previous.tagnames:
